@@ -783,3 +783,14 @@ package rlwe
 //@   ensures len(op.Value) == degree + 1
 //@   ensures val(op.Value[0]) == old(val(op.Value[0])) && val(op.Value[1]) == old(val(op.Value[1]))
 //@   ensures implies(degree == 2, val(op.Value[2]) == 0)
+
+// ---- an evaluation key may be generated WITHOUT the auxiliary modulus (LevelP = -1) under parameters that have
+// ---- one: the overflow margin of P is then asked for level -1 and must not look at an empty list (finding F59)
+//@ afunc ext:slices.Max
+//@   trusted slices.Max panics on an empty list
+//@   requires len(x) >= 1
+
+//@ afunc Parameters.PiOverflowMargin
+//@   property C04
+//@   requires 0 - 1 <= level && level < len(p.pi)
+//@   ensures implies(level < 0, result == 0 - 1)
